@@ -346,6 +346,14 @@ func parentMain() {
 			h := g.history(&w, 8+g.r.Intn(13))
 			cases = append(cases, Case{W: w, H: h})
 		}
+		// the same kind of worlds (without host functions that close the instance and return) on runtimes
+		// configured WithCloseOnContextDone(true), every call under its own context cancelled afterwards
+		gc := &gen{r: hx.Rand(), noClose: true}
+		for i := 0; i < n/3; i++ {
+			w := gc.world(50000 + i)
+			h := gc.history(&w, 8+gc.r.Intn(13))
+			cases = append(cases, Case{W: w, H: h, CloseOnDone: true})
+		}
 	}
 
 	// reference answers
